@@ -130,6 +130,13 @@ class Task(NamedUIDObject):
             resource = resource.get_select_workers()
 
         if isinstance(resource, SelectWorkers):
+            # a worker cannot be required twice by the same task: neither directly and
+            # through a selection, nor through two selections
+            for worker in resource._selection_dict:
+                if worker in self._required_resources:
+                    raise ValueError(
+                        f"resource {worker.name} already defined as a required resource for task {self.name}"
+                    )
             # loop over each resource. A worker listed twice in the selection is one
             # candidate (one selection flag): it gets one busy interval
             for worker in resource._selection_dict:
